@@ -16,8 +16,13 @@
 #include <stddef.h>
 #include <stdint.h>
 
+#if defined(ROOT_SIM_CORE_VERIF) && defined(RSV_B_TOTAL_EXP) && defined(RSV_B_BLOCK_EXP)
+#define B_TOTAL_EXP RSV_B_TOTAL_EXP
+#define B_BLOCK_EXP RSV_B_BLOCK_EXP
+#else
 #define B_TOTAL_EXP 16U
 #define B_BLOCK_EXP 6U
+#endif
 
 #define next_exp_of_2(i) (sizeof(i) * CHAR_BIT - intrinsics_clz(i))
 #define buddy_allocation_block_compute(req_size) next_exp_of_2(max(req_size, 1U << B_BLOCK_EXP) - 1);
